@@ -35,7 +35,8 @@ EXPLANATION = ("The real simulate() is symbolically executed on a real runner ob
                "value families (ordinary / tiny / adjacent binary64 / huge, arrays and lists); get_pack_indexes is also symbolically "
                "executed (its eval'd index expression included) on grids of ARBITRARY pairwise distinct real values.")
 ASSUMPTIONS = [
-    "whole-run pattern enumeration bounded: rep_max in {1,2,3}, at most 2 skips per variation, grids up to 2x2 variations (values "
+    "whole-run pattern enumeration bounded: rep_max in {1,2,3}, at most 2 skips per variation (2x2 grid, thorough tier: 1 skip for "
+    "rep_max 2, none for rep_max 3), grids up to 2x2 variations (values "
     "symbolic); the repetition loop itself is proved for EVERY rep_max by the inductive step loop/inductive_step_any_rep_max (arbitrary "
     "loop-head state, symbolic rep_max; the induction over iterations is the standard meta-argument, not machine-checked); larger "
     "grids / skip patterns in the bounded native check",
@@ -151,7 +152,8 @@ GRIDS = {"none": {}, "one": {"a": [10, 20]}, "two": {"a": [1, 2], "b": [5.0, 7.5
 def ob_patterns(grid, rep_max):
     def body(c, it):
         it.native_prefixes = list(NATIVE)
-        r = _make_runner(c, GRIDS[grid], rep_max, 2)
+        # 4 variations: at most one skip per variation (the number of patterns grows with the product over the variations)
+        r = _make_runner(c, GRIDS[grid], rep_max, 2 if (grid != "two" or rep_max == 1) else (1 if rep_max == 2 else 0))
         it.call(it.getattr(r, "simulate"), [])
         return _path_goals(r, GRIDS[grid], rep_max)
     return verify(body, check_side=False, timeout_ms=20000, max_paths=200000)
